@@ -18,7 +18,11 @@ from .common import cbool, clist, cnat
 PROP = "C09"
 F10_SIG = "F10_push_manager_indistinguishable"
 KINDS = {"main": dict(imports="From SS Require Import Base M_ExitStack.", type="es_case",
-                      mismatch="mismatches", nontrivial="count_nontrivial")}
+                      mismatch="mismatches", nontrivial="count_nontrivial"),
+         "hist": dict(imports="From SS Require Import Base M_ExitStack.", type="hist_case",
+                      mismatch="hist_mismatches", nontrivial="hist_nontrivial"),
+         "conc": dict(imports="From SS Require Import Base M_ExitStack.", type="conc_case",
+                      mismatch="conc_mismatches", nontrivial="conc_nontrivial")}
 SHARD = 300
 RULE = ("(a) registration sequences: every sequence of length <= 4 over the 10 registration forms (enter_context, "
         "push(manager), push(function), push(bound method), callback, enter_async_context, push_async_exit(manager / "
@@ -27,7 +31,12 @@ RULE = ("(a) registration sequences: every sequence of length <= 4 over the 10 r
         "generator-based or exit stacks, chosen per position from the seed.  (b) random manager trees of depth <= 4 "
         "mixing plain / generator-based (sync, async, yield from) managers and exit stacks, owned by a coroutine or a "
         "generator observed suspended in the body, suspended inside an async manager's exit, or running inside any "
-        "manager's exit, including exit stacks observed in the middle of their own exit (a later callback running, earlier ones pending).  distinct = distinct descriptors; non-trivial = the root frame holds a non-empty exit stack or a "
+        "manager's exit, including exit stacks observed in the middle of their own exit (a later callback running, earlier ones pending).  Every tree is extracted twice in a row (equal results required).  (c) histories: an extraction "
+        "made to fail part-way (every plain manager's __repr__ raises), then two more extractions of the same still-entered "
+        "tree.  (d) concurrent registration: the owner thread is parked inside `with ExitStack()`; the __repr__ of one "
+        "registered manager, called by the extracting thread, makes the owner register one more callback and waits for it "
+        "(events, no sleeps); extract(thread) must show the children of a snapshot (n or n+1), a later one all n+1.  "
+        "distinct = distinct descriptors; non-trivial = the root frame holds a non-empty exit stack or a "
         "generator-based manager, or is exiting")
 CONFIG = dict(
     coq=["C09"], level="proof",
@@ -235,10 +244,71 @@ def specials():
     return out
 
 
+def has_repr_site(x):
+    """some exit stack holds a plain manager whose repr the glue needs (enter / push(manager) / bound method)"""
+    if isinstance(x, dict):
+        if x.get("t") == "stack":
+            for c in x["cbs"]:
+                if c["k"] in B.MGR_KINDS + B.METH_KINDS and c.get("m") and c["m"]["t"] == "plain":
+                    return True
+        return any(has_repr_site(v) for v in x.values())
+    if isinstance(x, list):
+        return any(has_repr_site(v) for v in x)
+    return False
+
+
+def hist_cases(rng, n):
+    gcm = lambda a, body=None: {"t": "gen", "a": a, "f": False, "body": body or _frm()}
+    # the shape of the seeded demo: gen-based child holding a nested stack, plain manager, function, callback
+    inner = {"t": "stack", "a": False, "f": False, "cbs": [{"k": "callback", "x": False, "m": None}]}
+    st = {"t": "stack", "a": False, "f": False, "cbs": [
+        {"k": "enter", "x": False, "m": gcm(False, _frm([_wth(inner)]))},
+        {"k": "enter", "x": False, "m": _plain(False)},
+        {"k": "pushfn", "x": False, "m": None}, {"k": "callback", "x": False, "m": None}]}
+    for mode, rk in (("susp", "gen"), ("susp", "coro"), ("run", "gen")):
+        yield {"root": _frm([_wth(copy.deepcopy(st))]), "mode": mode, "rk": rk, "plan": "hist", "_kind": "hist"}
+    # the failing child sits in a stack nested in a stack nested in a generator-based manager
+    deep = {"t": "stack", "a": True, "f": False, "cbs": [
+        {"k": "entera", "x": False, "m": gcm(True, _frm([_wth({"t": "stack", "a": False, "f": False, "cbs": [
+            {"k": "enter", "x": False, "m": {"t": "stack", "a": False, "f": False, "cbs": [
+                {"k": "enter", "x": False, "m": gcm(False)}, {"k": "pushmeth", "x": False, "m": _plain(False)}]}}]})]))},
+        {"k": "enter", "x": False, "m": gcm(False)}]}
+    yield {"root": _frm([_wth(deep)]), "mode": "susp", "rk": "coro", "plan": "hist", "_kind": "hist"}
+    got = 0
+    while got < n:
+        if rng.random() < 0.5:
+            sync = rng.random() < 0.3
+            d = seq_case([rng.choice(B.SYNC_KINDS if sync else B.KINDS) for _ in range(rng.choice([2, 3, 4]))], rng, sync_stack=sync)
+        else:
+            d = gen_tree_case(rng, rng.choice([2, 3, 4]))
+        if has_repr_site(d):
+            got += 1
+            yield dict(d, plan="hist", _kind="hist")
+
+
+def conc_cases(rng, n):
+    """owner thread registers [late] while the extracting thread is describing child [signal]"""
+    out = 0
+    while out < n:
+        k = rng.choice([1, 2, 3, 4])
+        cbs = [gen_cb(rng, 2 if rng.random() < 0.5 else 0, False, weights=(3, 4, 2)) for _ in range(k)]
+        sig = rng.randrange(k)
+        cbs[sig] = {"k": rng.choice(["enter", "enter", "pushmgr", "pushmeth"]), "x": False, "m": _plain(False, rng.random() < 0.2)}
+        late = gen_cb(rng, 2, False, weights=(3, 4, 2))
+        st = {"t": "stack", "a": False, "f": False, "cbs": cbs, "late": late}
+        ws = [_wth(st, n=rng.random() < 0.8)]
+        if rng.random() < 0.3:
+            ws.insert(0, _wth({"t": "gen", "a": False, "f": False, "body": _frm()}))
+        out += 1
+        yield {"root": _frm(ws), "mode": "susp", "rk": "fn", "plan": "conc", "signal": sig, "_kind": "conc"}
+
+
 def make_inputs(tier, seed):
     rng = random.Random(seed * 7919 + 9)
     yield from f10_cases()
     yield from specials()
+    yield from hist_cases(rng, 150 if tier == "quick" else 1500)
+    yield from conc_cases(rng, 60 if tier == "quick" else 600)
     if tier == "thorough":
         for ks in all_sequences(4, B.KINDS):
             yield seq_case(ks, rng)
@@ -263,8 +333,30 @@ def make_inputs(tier, seed):
 def run_case(desc):
     d = copy.deepcopy(desc)
     env = B.Env(d)
+    if desc.get("plan") == "conc":
+        env.run_thread()
+        before = strip(d["root"])
+        after = copy.deepcopy(before)
+        _append_late(after)
+        return {"tree": before, "tree_after": after, "outs": env.observations, "notes": env.notes,
+                "signalled": env.signalled}
     env.run()
-    return {"tree": strip(d["root"]), "out": env.abstracted, "notes": env.notes}
+    obs = {"tree": strip(d["root"]), "out": env.abstracted, "notes": env.notes}
+    if desc.get("plan") == "hist":
+        obs["outs"] = env.observations
+        obs["fault_reported"] = getattr(env, "fault_error", None)
+    return obs
+
+
+def _append_late(x):
+    if isinstance(x, dict):
+        if x.get("t") == "stack" and x.get("late") is not None:
+            x["cbs"] = x["cbs"] + [x.pop("late")]
+        for v in x.values():
+            _append_late(v)
+    elif isinstance(x, list):
+        for v in x:
+            _append_late(v)
 
 
 def strip(x):
@@ -331,6 +423,11 @@ def c_fout(f):
 
 
 def coq_case(desc, obs):
+    outs = lambda o: clist([c_fout(f) for f in o])
+    if desc.get("_kind") == "hist":
+        return "(Build_hist_case %s %s)" % (c_frm(obs["tree"]), clist([outs(o) for o in obs["outs"]]))
+    if desc.get("_kind") == "conc":
+        return "(Build_conc_case %s %s %s %s)" % (c_frm(obs["tree"]), c_frm(obs["tree_after"]), outs(obs["outs"][0]), outs(obs["outs"][1]))
     return "(Build_es_case %s %s)" % (c_frm(obs["tree"]), clist([c_fout(f) for f in obs["out"]]))
 
 
@@ -425,6 +522,24 @@ def diff(exp, obs, where="frames"):
 def direct_oracle(desc, obs):
     if obs.get("notes"):
         return "extraction anomalies: " + "; ".join(obs["notes"][:3])
+    if desc.get("plan") == "hist":
+        exp = exp_series(obs["tree"], False)
+        for i, o in enumerate(obs["outs"]):
+            r = diff(exp, o)
+            if r:
+                return ("extraction %d of the history (0 = before, 1.. = after an extraction that failed part-way) differs from "
+                        "the property's tree at %s: expected %r, observed %r" % ((i,) + r[:3]))
+        return None
+    if desc.get("plan") == "conc":
+        e0, e1 = exp_series(obs["tree"], False), exp_series(obs["tree_after"], False)
+        r0, r1 = diff(e0, obs["outs"][0]), diff(e1, obs["outs"][0])
+        if r0 and r1:
+            return ("extraction during a concurrent registration shows neither the callbacks registered before nor after it; "
+                    "vs before at %s: expected %r, observed %r" % r0[:3])
+        r = diff(e1, obs["outs"][1])
+        if r:
+            return "extraction after the concurrent registration differs at %s: expected %r, observed %r" % r[:3]
+        return None
     strict = bool(desc.get("_sig"))
     r = diff(exp_series(obs["tree"], strict), obs["out"])
     if r:
@@ -433,7 +548,14 @@ def direct_oracle(desc, obs):
 
 
 def classify(desc, obs):
-    labs = ["mode:" + desc["mode"], "root:" + desc["rk"]]
+    labs = ["mode:" + desc["mode"], "root:" + desc["rk"], "plan:" + desc.get("plan", "single")]
+    if desc.get("plan") == "conc":
+        labs.append("conc:signalled" if obs.get("signalled") else "conc:not-signalled")
+        n0 = len([c for w in obs["tree"]["ws"] if w["m"]["t"] == "stack" for c in w["m"]["cbs"]])
+        seen = [len(c["kids"]) for c in obs["outs"][0][0]["cs"] if c["kids"]] if obs["outs"][0] else []
+        labs.append("conc:first-sees-%s" % ("n+1" if seen and seen[-1] == n0 + 1 else "n"))
+    if desc.get("plan") == "hist":
+        labs.append("hist:fault-reported=%s" % obs.get("fault_reported"))
 
     def walk_m(m, depth):
         if m is None:
